@@ -2112,7 +2112,12 @@ pub fn arb_token_case() -> impl Strategy<Value = TokenCase> {
         any::<[u8; 16]>().prop_map(IpSpec::V6),
         Just(IpSpec::V4([0; 4])),
         Just(IpSpec::V6([0; 16])),
-        Just(IpSpec::V6([0xff; 16]))
+        Just(IpSpec::V6([0xff; 16])),
+        // structured IPv6 classes: IPv4-mapped (::ffff:a.b.c.d), IPv4-compatible, loopback, link-local
+        any::<[u8; 4]>().prop_map(|a| IpSpec::V6([0, 0, 0, 0, 0, 0, 0, 0, 0, 0, 0xff, 0xff, a[0], a[1], a[2], a[3]])),
+        any::<[u8; 4]>().prop_map(|a| IpSpec::V6([0, 0, 0, 0, 0, 0, 0, 0, 0, 0, 0, 0, a[0], a[1], a[2], a[3]])),
+        Just(IpSpec::V6([0, 0, 0, 0, 0, 0, 0, 0, 0, 0, 0, 0, 0, 0, 0, 1])),
+        any::<[u8; 8]>().prop_map(|a| IpSpec::V6([0xfe, 0x80, 0, 0, 0, 0, 0, 0, a[0], a[1], a[2], a[3], a[4], a[5], a[6], a[7]])),
     ];
     let secs = prop_oneof![3 => 1_600_000_000u64..2_000_000_000, 1 => 0u64..3, 1 => prop::sample::select(vec![u32::MAX as u64, u32::MAX as u64 + 1, 1 << 40, (1 << 33) - 1])];
     (any::<bool>(), ip, any::<u16>(), arb_cid(0), secs, prop_oneof![Just(0u32), 0u32..1_000_000_000], any::<(u64, u64)>(), any::<u64>(), prop::bool::weighted(0.3))
